@@ -3,6 +3,7 @@ import os
 import verif
 from verif import Unit, rc_params
 
+ENGINE = "rapidcheck+enumeration"
 ID = "C18"
 TECHNIQUE = ("fault enumeration: write() interposed at link time, every crash state of every save (call prefixes, byte prefixes, "
              "per-sector versions x file lengths) rebuilt on disk and loaded through a fresh storage object; histories by rapidcheck + a "
